@@ -22,7 +22,7 @@ def _file(mciipm, rows, enc, blocked, trailer=True, tables=None):
     return f
 
 
-def replay_extract(table, cfg, expanded, enc, blocked, member, lens, index='all', rows=None):
+def replay_extract(table, cfg, expanded, enc, blocked, member, lens, index='all', rows=None, mid_trailer=None):
     from cardutil import mciipm
     from cardutil.config import config
     layout = config['mci_parameter_tables'][table] if cfg == 'packaged' else cfg
@@ -35,8 +35,11 @@ def replay_extract(table, cfg, expanded, enc, blocked, member, lens, index='all'
         body = ''.join(chr(65 + (j * 7 + i) % 26) for j in range(max(0, n - len(key))))
         rows.append(((given[i] if given else key + body), ts, code))
     tables = None if index == 'all' else [t for t in SUBID if t != table]
+    file_rows = [r[0] for r in rows]
+    if mid_trailer is not None:
+        file_rows.insert(mid_trailer + 1, 'TRAILER RECORD %s  %08d' % (table, mid_trailer + 1))
     try:
-        rd = mciipm.IpmParamReader(_file(mciipm, [r[0] for r in rows], enc, blocked, tables=tables), table, encoding=enc,
+        rd = mciipm.IpmParamReader(_file(mciipm, file_rows, enc, blocked, tables=tables), table, encoding=enc,
                                    param_config=None if cfg == 'packaged' else {table: layout}, expanded=expanded, blocked=blocked)
         got = list(rd)
     except Exception as e:
@@ -59,11 +62,17 @@ def replay_refuse(case):
     from cardutil import mciipm
     extra = ['TRAILER RECORD IP0075T1  00000003'] if case == 'other-trailer-only' else []
     f = _file(mciipm, extra + ['2100000A036' + 'X' * 40] + extra, 'latin_1', False, trailer=(case not in ('no-trailer', 'other-trailer-only')))
+    caller = {'IP0075T1': {'col': {'start': 19, 'end': 22}}, 'IP0190T1': {'col': {'start': 19, 'end': 30}}}
     try:
-        mciipm.IpmParamReader(f, 'IP0040T1' if case != 'no-config' else 'IP9999T1')
+        if case == 'not-in-caller-config':
+            mciipm.IpmParamReader(f, 'IP0040T1', param_config=caller)
+        elif case == 'ok-caller-config':
+            mciipm.IpmParamReader(f, 'IP0075T1', param_config=caller)
+        else:
+            mciipm.IpmParamReader(f, 'IP0040T1' if case != 'no-config' else 'IP9999T1')
         raised = False
     except mciipm.MciIpmDataError:
         raised = True
     except Exception as e:
         return True, 'raised %s' % type(e).__name__, 'C18/refuse'
-    return raised != (case != 'ok'), 'case %s %s' % (case, 'refused' if raised else 'accepted'), 'C18/refuse'
+    return raised != (not case.startswith('ok')), 'case %s %s' % (case, 'refused' if raised else 'accepted'), 'C18/refuse'
